@@ -408,6 +408,8 @@ def _run_case(case, seed, mech_seen):
     model = Model(data_K, Formula, kw, thr, kram)
     NB = model.NB
     subsets = [np.array([0]), np.array(sorted({1 % NB, NB - 1}))]
+    if NB >= 2:
+        subsets.append(np.array([NB - 1, 0]))       # a selection that is not listed in ascending order
     tag = (case["system"], tuple(case["grid"]), case["formula"], thr, kram)
     ncalls = 0
     nties = 0
@@ -521,5 +523,5 @@ def finish(tier, cases, results):
             "fermi_grids_per_case": len(COUNTS) * len(OFFSETS) * len(SPACINGS_Q if tier == "quick" else SPACINGS_T),
             "axes": {"systems": len(SYSTEMS_Q if tier == "quick" else SYSTEMS_T),
                      "fft_grids": len(GRIDS_Q if tier == "quick" else GRIDS_T), "formulas": len(FORMULAS),
-                     "degen_thresh": len(THRESH), "degen_Kramers": 2, "fder": 4, "select_bands": 3,
+                     "degen_thresh": len(THRESH), "degen_Kramers": 2, "fder": 4, "select_bands": 4,
                      "k_resolved": 2, "hole_like": 2}}
